@@ -20,11 +20,10 @@
    Not modelled: Console.record (copy of the buffer, C15), the WINDOWS per-line write loop
    (WINDOWS = False; `legacy_windows` only suppresses hyperlinks, as coded), Jupyter.
    Segment.remove_color keeps a dict {style: style.without_color}; two segments whose styles are
-   equal (and hash equally) therefore share one colourless object.  Equal styles have the same
-   attributes and link, the colourless copy has no colours and an empty memo, so the shared object
-   renders exactly like each segment's own `without_color` -- except for `_link_id`, which
-   without_color draws afresh anyway and which the harness normalises.  The dict is therefore not
-   modelled; the generator repeats equal styles inside one buffer to keep this honest. *)
+   equal (and hash equally) share one colourless object.  `remove_color_cached` (end of this file)
+   models that as coded; AnsiP4.remove_color_dict_transparent proves that it renders exactly like
+   each segment's own `without_color` (link ids equal), so render_buffer uses the simpler
+   `map remove_color_seg`.  The generator repeats equal styles inside one buffer. *)
 From RichModel Require Import Prelude Color Style.
 From RichGen Require Import StyleTables.
 
@@ -128,3 +127,91 @@ Definition strip_color (k : cfg) (segs : list aseg) : list aseg :=
 
 Definition render_buffer (k : cfg) (segs : list aseg) : res str :=
   render_segs k (strip_color k segs).
+
+(* ------------------------------------------------------------------ histories of one style object *)
+(* An object = (fields, state of its `_ansi` slot).  A history renders the current object on
+   consoles of arbitrary configuration and replaces it by styles derived from it.  Which
+   derivation carries the memo over is part of the code (pinned by gen/AnsiFacts.v):
+     copy(), update_link()      `style._ansi = self._ansi`   carried (same attributes and colours)
+     without_color              `style._ansi = None`         reset  (the colours change!)
+     a + b (general branch)     `new_style._ansi = None`     reset;  a + null = a, null + b = b (same objects)
+   The null style is never rendered by _render_buffer (`if style:`), so its slot stays empty here.
+   Link ids: one parameter [lid] stands for every f"{time()}-{randint()}" (pinned by the harness). *)
+Definition obj : Type := (style * memo)%type.
+
+Inductive hop : Type :=
+| HRender (k : cfg) (text : str)      (* a console with facts k writes Segment(text, current) *)
+| HWithoutColor                        (* current := current.without_color *)
+| HCopy                                (* current := current.copy() *)
+| HUpdateLink (l : option str)         (* current := current.update_link(l) *)
+| HAddRight (b : style)                (* current := current + b      (b freshly constructed) *)
+| HAddLeft (b : style).                (* current := b + current *)
+
+Definition obj_without_color (o : obj) : obj := (style_without_color (fst o), None).
+Definition obj_copy (o : obj) : obj :=
+  if s_null (fst o) then (style_null, None) else (style_copy (fst o), snd o).
+Definition obj_update_link (l : option str) (o : obj) : obj := (style_update_link true (fst o) l, snd o).
+Definition obj_add (a b : obj) : obj :=
+  if s_null (fst b) then a else if s_null (fst a) then b else (style_merge (fst a) (fst b), None).
+
+Definition hist_seg (o : obj) (text lid : str) : aseg := mkASeg text (Some (fst o)) lid (snd o) false.
+
+(* the object's own slot after a console wrote it: filled only when the console rendered THIS
+   object (truthy style, colour system, non-empty text, colours not stripped: NO_COLOR renders the
+   colourless copy) *)
+Definition memo_next (k : cfg) (o : obj) (text : str) : obj :=
+  match k_system k, text with
+  | Some sys, _ :: _ =>
+      if style_bool (fst o) && negb (k_no_color k)
+      then match memo_after (k_fix_d16 k) (fst o) (snd o) sys with
+           | Ok m' => (fst o, m')
+           | _ => o            (* unreachable after a successful render *)
+           end
+      else o
+  | _, _ => o
+  end.
+
+(* [memoful = false]: every object is treated as never rendered (the reference behaviour) *)
+Definition forget (memoful : bool) (o : obj) : obj := if memoful then o else (fst o, None).
+
+Fixpoint run_hist (memoful : bool) (lid : str) (o : obj) (ops : list hop) : res (list str) :=
+  match ops with
+  | [] => Ok []
+  | HRender k text :: r =>
+      do out <- render_buffer k [hist_seg o text lid];
+      do outs <- run_hist memoful lid (forget memoful (memo_next k o text)) r;
+      Ok (out :: outs)
+  | HWithoutColor :: r => run_hist memoful lid (forget memoful (obj_without_color o)) r
+  | HCopy :: r => run_hist memoful lid (forget memoful (obj_copy o)) r
+  | HUpdateLink l :: r => run_hist memoful lid (forget memoful (obj_update_link l o)) r
+  | HAddRight b :: r => run_hist memoful lid (forget memoful (obj_add o (b, None))) r
+  | HAddLeft b :: r => run_hist memoful lid (forget memoful (obj_add (b, None) o)) r
+  end.
+
+(* ------------------------------------------------------------------ Segment.remove_color as coded *)
+(* `cache: Dict[Style, Style]`: the colourless copy made for the first of several equal styles is
+   reused for the later ones (same object: same `_link_id`, and its `_ansi` slot is whatever the
+   earlier render of this very buffer left in it).  [same k s]: "dict key k matches s" (equal hash
+   and __eq__); [reuse_memo]: the slot of a reused copy.  proofs/AnsiP4.v shows that this function
+   renders exactly like `map remove_color_seg` -- which is why render_buffer uses the latter. *)
+Fixpoint remove_color_cached (same : style -> style -> bool) (reuse_memo : style -> memo)
+                             (cache : list (style * (style * str))) (segs : list aseg) : list aseg :=
+  match segs with
+  | [] => []
+  | g :: r =>
+      match a_style g with
+      | Some s =>
+          if style_bool s then
+            match find (fun kv => same (fst kv) s) cache with
+            | Some (_, (cs, clid)) =>
+                mkASeg (a_text g) (Some cs) clid (reuse_memo cs) (a_ctl g)
+                :: remove_color_cached same reuse_memo cache r
+            | None =>
+                let cs := style_without_color s in
+                mkASeg (a_text g) (Some cs) (a_lid g) None (a_ctl g)
+                :: remove_color_cached same reuse_memo ((s, (cs, a_lid g)) :: cache) r
+            end
+          else mkASeg (a_text g) None (a_lid g) None (a_ctl g) :: remove_color_cached same reuse_memo cache r
+      | None => g :: remove_color_cached same reuse_memo cache r
+      end
+  end.
